@@ -137,7 +137,7 @@ def run(P, C, tier):
                 for d0 in ds:
                     ao = mir.has_call(d0, r"serde_json::Value::as_object$")
                     if ao is not None and ao[2]:
-                        src = mir.strip(ao[2][0])
+                        src = b.copy_root(mir.strip(ao[2][0]))      # through the parameter of a helper analysed inlined
                         shown = b.cpath(src)
                         if src[0] == "param":
                             kind_of = "param"
